@@ -45,10 +45,12 @@ def gen_cases(tier, seed):
         for j in KEYS:
             sc = signing_capable(iname)
             embeds = ["none", "actual", "third"] + (["issuers"] if sc else [])
-            for emb, level, opt in itertools.product(embeds, ("response", "assertion"), (1, 0)):
+            for emb, level, opt in itertools.product(embeds, ("response", "assertion"), (1, 0, "default")):
                 if tier == "quick" and emb == "third" and j not in (0, 9):
                     continue
-                cid = "%s-k%02d-%s-%s-%s" % (iname, j, emb, level, "on" if opt else "off")
+                if opt == "default" and emb == "third":
+                    continue
+                cid = "%s-k%02d-%s-%s-%s" % (iname, j, emb, level, {1: "on", 0: "off", "default": "default"}[opt])
                 cases.append({"id": cid, "sig": [iname, j, emb, level, opt], "issuer": iname, "key": j, "embed": emb, "level": level,
                               "opt": opt, "assertion_issuer": None})
     # assertion issued (and named) by another IdP than the response
@@ -77,8 +79,9 @@ def setup_worker(ctx):
 
 def _sp(ctx, opt, level):
     def build():
+        top = {} if opt == "default" else {"only_use_keys_in_metadata": bool(opt)}     # "default": option not configured, documented default is on
         spc = fed.sp_conf(want_response_signed=(level == "response"), want_assertions_signed=(level == "assertion"),
-                          idp=[d["eid"] for d in IDPS.values()], top={"only_use_keys_in_metadata": bool(opt)})
+                          idp=[d["eid"] for d in IDPS.values()], top=top)
         return fed.make_sp(spc, federation_md()), fed.metadata_of(spc)
     return ctx.fedcache.get("sp", [opt, level], build)
 
@@ -92,6 +95,7 @@ def _idp(ctx, name, spmd):
 def run_case(case, ctx):
     import saml2_tophat.sigver as sv
     (sp, spmd) = _sp(ctx, case["opt"], case["level"])
+    opt_on = bool(case["opt"])          # "default" counts as on
     idp = _idp(ctx, case["issuer"], spmd)
     ident = {"givenName": ["Ann"], "mail": ["ann@example.org"]}
     xml = fed.issue(idp, ident, sign_response=False, sign_assertion=False)
@@ -117,16 +121,16 @@ def run_case(case, ctx):
     evs = [e for e in ctx.events() if not e.get("case", "").startswith("harness:")]
     accepted = resp is not None
     must_accept = j in sc
-    fallback_ok = (not case["opt"]) and not sc and emb == j
+    fallback_ok = (not opt_on) and not sc and emb == j
     viol = []
     outcome = "accept" if accepted else "reject:" + (type(exc).__name__ if exc is not None else "None")
     what = "issuer %s (signing-capable metadata keys %s), signed with k%02d, embedded %s, level %s, only_use_keys_in_metadata=%s: %s" % (
-        signer_issuer, ["k%02d" % k for k in sc], j, "k%02d" % emb if emb is not None else "none", case["level"], bool(case["opt"]), outcome)
+        signer_issuer, ["k%02d" % k for k in sc], j, "k%02d" % emb if emb is not None else "none", case["level"], case["opt"] if case["opt"] == "default" else bool(case["opt"]), outcome)
     if accepted and not (must_accept or fallback_ok):
         key = "C03/accepted-under-key-not-held-for-issuer"
         if emb == j and sc:
             key = "C03/embedded-certificate-trusted-although-metadata-has-signing-key"
-        elif emb == j and case["opt"]:
+        elif emb == j and opt_on:
             key = "C03/embedded-certificate-trusted-with-only_use_keys_in_metadata"
         elif j in [k for u, k in (IDPS[signer_issuer]["keys"] or []) if u == "encryption"]:
             key = "C03/encryption-only-key-authenticated-issuer"
@@ -135,7 +139,7 @@ def run_case(case, ctx):
         viol.append({"key": "C03/valid-signature-under-issuers-metadata-key-rejected", "what": what + " (%r)" % (exc,)})
     # trace oracle: certificates that were even tried
     allowed = set("k%02d" % k for k in sc)
-    if not sc and not case["opt"] and emb is not None:
+    if not sc and not opt_on and emb is not None:
         allowed = {"k%02d" % emb}
     tried = [monitors.cert_name(e.get("cert", b"")) for e in evs if e.get("cmd") == "verify"]
     bad = sorted(set(t for t in tried if t not in allowed))
